@@ -76,6 +76,29 @@ def schema_outcome(schema, line: str) -> tuple:
     return ("accept", fields_of(message))
 
 
+def check_independent_decodes(ctx, schemas, version: str, line: str) -> None:
+    """'An accepted line always decodes to exactly the field values it spells' - also the second time, and also after
+    the application changed the Message object it got the first time."""
+    verdict = spec.recognize(line)
+    if verdict["verdict"] != "accept":
+        return
+    case = {"kind": "independent", "version": version, "line": line}
+    schema = schemas[version]
+    try:
+        first = schema.load(line)
+        first.payload = "CHANGED BY THE APPLICATION"
+        first.node_id, first.child_id, first.message_type = 200, 3, 55
+        second = schema.load(line)
+    except Exception as exc:  # noqa: BLE001
+        ctx.violation("wellformed-line-rejected", f"{type(exc).__name__} on repeated decode of {line!r:.80}", case)
+        return
+    ctx.clause("repeated-decode-independent")
+    if fields_of(second) != verdict["fields"]:
+        ctx.violation("decoded-message-shared",
+                      f"decoding {line!r:.80} a second time gives {fields_of(second)!r:.100} after the application changed the "
+                      f"Message object it received the first time (spelled {verdict['fields']!r:.100})", case)
+
+
 def check_schema(ctx, schemas, version: str, line: str) -> None:
     verdict = spec.recognize(line)
     case = {"kind": "schema", "version": version, "line": line}
@@ -129,7 +152,9 @@ async def gateway_case(ctx, version: str, line: str) -> None:
 
 
 def run_case(ctx, case: dict) -> None:
-    if case["kind"] == "schema":
+    if case["kind"] == "independent":
+        check_independent_decodes(ctx, {case["version"]: schema_for(case["version"])}, case["version"], case["line"])
+    elif case["kind"] == "schema":
         check_schema(ctx, {case["version"]: schema_for(case["version"])}, case["version"], case["line"])
     else:
         arun(gateway_case(ctx, case["version"], case["line"]))
@@ -197,6 +222,11 @@ def run(ctx) -> None:
                     check_schema(ctx, schemas, version, line)
                     count += 1
         ctx.exhaustive["field-alphabet-lines"] = count
+        for version in VERSIONS:
+            for i, line in enumerate(lines):
+                if i % 40 == 0 and ctx.mine():
+                    check_independent_decodes(ctx, schemas, version, line)
+                    check_independent_decodes(ctx, schemas, version, line)
         # random mutations of valid lines
         for _ in range(ctx.pick(40000, 3000000) // ctx.shard_count):
             version = rng.choice(VERSIONS)
